@@ -141,6 +141,24 @@ def run(ctx):
             for d, l, _ in guards(up, site.get(id(c), c.block)):
                 if d == "disc(action)":
                     vall |= set(l.split("|"))
+        # the kind of action may reach the queues as `Some(key)` / `None` worked out beforehand: the variants under which each is built stand for it
+        opt_from = {}
+        for i_, j_, p_, rv_, l_ in up.assigns():
+            if rv_[0] == "agg" and isinstance(rv_[1], dict) and (rv_[1].get("adt") or "").endswith("option::Option"):
+                for d, l, _ in guards(up, i_):
+                    if d == "disc(action)":
+                        opt_from.setdefault(rv_[1].get("variant"), set()).update(l.split("|"))
+
+        def via_option(c):
+            # the callback's own test of the captured Option: Some / None
+            for cb in ag.closures_of(up.defpath):
+                if any(x is c for x in cb.calls):
+                    labs = [l for d, l, _ in dom_guards(cb, c.block) if d.startswith("disc(") and l in ("Some", "None")]
+                    return labs[-1] if labs else None
+            return None
+        if not vall and opt_from:
+            for c in rm:
+                vall |= opt_from.get(via_option(c), set())
         # (one arm with an or-pattern, or an arm per variant)
         r.check(vall == {"Update", "Remove"}, "update_sync_queues/keyed=>remove", rm[0].loc() if rm else where(up), "Update|Remove remove the key from a queue (%s)" % sorted(vall), "remove is applied for %s" % sorted(vall))
         for c in rm:
@@ -156,6 +174,8 @@ def run(ctx):
             blk = site.get(id(c), c.block)
             g = dom_guards(up, blk)
             v = [l for d, l, _ in g if d == "disc(action)"]
+            if not v and opt_from.get(via_option(c)):
+                v = ["|".join(sorted(opt_from[via_option(c)]))]
             r.check(v and "Clear" in v[0].split("|") and every_queue(blk), "update_sync_queues/clear=>clear-all", c.loc(), "Clear empties every queue")
         sq = ctx.saw(ag.fn(name="remove", self_adt="lanes::queues::SyncQueue"))
         r.check(any(c.name == "remove" and describe_operand(sq, c.args[0]).endswith("queue") for c in sq.calls) and any(c.name == "position" for c in sq.calls), "SyncQueue::remove/removes-position", where(sq),
